@@ -45,6 +45,17 @@ func shownCodes(r *harness.Resp) []string {
 }
 
 func (c *monC18) After(m *Machine, s *Step) *Violation {
+	if s.Op.K == "updpw" && s.HasAPI && s.APIFired != "" {
+		// Authboss.UpdatePassword under a backend failure: an error, or everything it promises is done
+		c.faultsSeen++
+		m.flag("fault-fired:" + s.APIFired)
+		if s.Op.FA >= 2 {
+			m.flag("fault-at-call>=2")
+		}
+		if s.APIErr == nil {
+			return violation("C18", "backend-error-swallowed:updpw:fault="+s.APIFired, "UpdatePassword: backend call %s failed, yet it returned nil (remember tokens of the account still stored: %d)", s.APIFired, len(s.Post.Tokens[m.pidOf(s.Op.A)]))
+		}
+	}
 	if s.Resp == nil {
 		return nil
 	}
@@ -371,6 +382,8 @@ func c18Scenarios() []c18Scenario {
 			After: []Op{{K: "newsess"}, {K: "login", A: 0, Src: "pw", SA: 0}}},
 		{Name: "recover-end-2fa-account", Setup: []Op{{K: "recstart", A: 1}}, Target: Op{K: "recend", A: 1, Src: "rectok", SA: 1, S: "Passw0rd!R"}},
 		{Name: "recover-end-invalid", Setup: []Op{{K: "recstart", A: 0}}, Target: Op{K: "recend", A: 0, Src: "rectok", SA: 0, Mut: "flip", MA: 300, S: "Passw0rd!R"}},
+		{Name: "update-password-api", Setup: []Op{{K: "login", B: 1, A: 0, Src: "pw", SA: 0, F: true}}, Target: Op{K: "updpw", A: 0, S: "Passw0rd!U"},
+			After: []Op{{K: "newsess", B: 1}, {K: "visit", B: 1, S: "/p/none"}, {K: "login", A: 0, Src: "pw", SA: 0}}},
 		{Name: "logout", Setup: []Op{login0}, Target: Op{K: "logout"}},
 		{Name: "remember-reauth", Setup: []Op{{K: "login", A: 0, Src: "pw", SA: 0, F: true}, {K: "newsess"}}, Target: Op{K: "visit", S: "/p/none"},
 			After: []Op{{K: "setcookie", B: 1, Src: "cookie", SA: 0, SN: 1}, {K: "visit", B: 1, S: "/p/none"}}},
